@@ -32,6 +32,7 @@ def main (args : List String) : IO UInt32 := do
   | "C01" :: rest => Driver.C01.main rest; return 0
   | "C01cfg" :: rest => Driver.C01.mainCfg rest; return 0
   | "C10sni" :: rest => Driver.C01.mainCfg rest; return 0
+  | "C19hid" :: rest => Driver.C01.mainCfg rest; return 0
   | "C01cb" :: rest => Driver.C01.main rest; return 0
   | "C02" :: rest => Driver.C02.main rest; return 0
   | "C19" :: rest => Driver.C19.main rest; return 0
@@ -55,6 +56,7 @@ def main (args : List String) : IO UInt32 := do
   | "C17q" :: rest => Driver.C17.mainQ rest; return 0
   | "C17lin" :: rest => Driver.C17.mainLin rest; return 0
   | "C17race" :: rest => Driver.C17.mainLin rest; return 0
+  | "C17dial" :: rest => Driver.C17.mainDial rest; return 0
   | _ =>
     IO.eprintln "usage: hopmodel <Cxx> [--spec] < ops.txt > model.txt"
     return 2
